@@ -460,6 +460,29 @@ impl<'a> VisitMut for Rewriter<'a> {
                 *e = n;
             }
         }
+        // R-splitchar: `X.split(C).map(|x| x.to_string()).collect()` => vx_split_char_strings(X, C)
+        if let Expr::MethodCall(mc) = e {
+            if mc.method == "collect" && mc.args.is_empty() {
+                if let Expr::MethodCall(mp) = &*mc.receiver {
+                    if mp.method == "map" && mp.args.len() == 1 {
+                        let cl = norm(&mp.args[0].to_token_stream().to_string());
+                        if cl == "|x|x.to_string()" || cl == "|v|v.to_string()" {
+                            if let Expr::MethodCall(sp) = &*mp.receiver {
+                                if sp.method == "split" && sp.args.len() == 1 {
+                                    if let Expr::Lit(syn::ExprLit { lit: syn::Lit::Char(_), .. }) = &sp.args[0] {
+                                        let x = &sp.receiver;
+                                        let c = &sp.args[0];
+                                        let n: Expr = parse_quote!(vx_split_char_strings(#x, #c));
+                                        fire(self.fired, "R-splitchar");
+                                        *e = n;
+                                    }
+                                }
+                            }
+                        }
+                    }
+                }
+            }
+        }
         // R-chain: RECV<chain> => f(RECV)
         if let Expr::MethodCall(_) = e {
             let full = norm(&e.to_token_stream().to_string());
@@ -529,6 +552,33 @@ impl<'a> VisitMut for Rewriter<'a> {
                             let f = &mc.args[0];
                             let target = syn::Ident::new(&format!("vx_slice_{}", m), Span::call_site());
                             rep = Some(parse_quote!(#target((#x).as_slice(), #f)));
+                        }
+                    }
+                }
+            }
+            // X.iter().filter(F).last()  /  X.iter().find(F)
+            if rep.is_none() {
+                if let Expr::MethodCall(mc) = e {
+                    let m = mc.method.to_string();
+                    if m == "last" && mc.args.is_empty() {
+                        if let Expr::MethodCall(fl) = &*mc.receiver {
+                            if fl.method == "filter" && fl.args.len() == 1 {
+                                if let Expr::MethodCall(it) = &*fl.receiver {
+                                    if it.method == "iter" && it.args.is_empty() {
+                                        let x = &it.receiver;
+                                        let f = &fl.args[0];
+                                        rep = Some(parse_quote!(vx_slice_filter_last((#x).as_slice(), #f)));
+                                    }
+                                }
+                            }
+                        }
+                    } else if m == "find" && mc.args.len() == 1 {
+                        if let Expr::MethodCall(it) = &*mc.receiver {
+                            if it.method == "iter" && it.args.is_empty() {
+                                let x = &it.receiver;
+                                let f = &mc.args[0];
+                                rep = Some(parse_quote!(vx_slice_find((#x).as_slice(), #f)));
+                            }
                         }
                     }
                 }
@@ -934,12 +984,11 @@ impl VisitMut for LoopBodyInserter {
                     let lit = proc_macro2::Literal::usize_unsuffixed(self.marker);
                     let m: Stmt = parse_quote!(__vx_insert!(#lit););
                     if self.at_end {
-                        if let Some(Stmt::Expr(_, None)) = b.stmts.last() {
-                            let n = b.stmts.len();
-                            b.stmts.insert(n - 1, m);
-                        } else {
-                            b.stmts.push(m);
+                        // a loop body has type (): a tail expression can be turned into a statement
+                        if let Some(Stmt::Expr(_, semi @ None)) = b.stmts.last_mut() {
+                            *semi = Some(Default::default());
                         }
+                        b.stmts.push(m);
                     } else {
                         b.stmts.insert(1, m);
                     }
